@@ -150,6 +150,40 @@ func propC17(c *ctx) error {
 	if err := c17Values(c, r); err != nil {
 		return err
 	}
+	// duplicate attributes at every pair of positions: a tag with 2..9 attributes (all value forms) in which the
+	// attribute at position j repeats the name of the attribute at position i < j must be rejected
+	{
+		forms := []string{`%s`, `%s=1`, `%s="v"`, `%s='v'`, `%s=""`}
+		names := []string{"a", "b", "c", "d", "e", "f", "g", "h", "i"}
+		dn := 0
+		for n := 2; n <= 9; n++ {
+			for i := 0; i < n; i++ {
+				for j := i + 1; j < n; j++ {
+					if c.quick() && (i+j+n)%3 != 0 && !(j >= 4 && i < 4) {
+						continue
+					}
+					var parts []string
+					for k := 0; k < n; k++ {
+						nm := names[k]
+						if k == j {
+							nm = names[i]
+						}
+						parts = append(parts, fmt.Sprintf(forms[r.n(len(forms))], nm))
+					}
+					src := "<p " + strings.Join(parts, r.pick([]string{" ", "\n", "  "})) + ">x</p>"
+					if err := runDoc(src, nil, configs[0], "dup"); err != nil {
+						return err
+					}
+					res.S3Checked++
+					dn++
+					if _, isErr := implScan(src, configs[0], noPrefix)["err"]; !isErr {
+						res.violate(J{"src": src, "expect_error": true}, "error", "accepted", fmt.Sprintf("duplicate attribute accepted (positions %d and %d of %d)", i+1, j+1, n))
+					}
+				}
+			}
+		}
+		res.Distribution["duplicate_attribute_cases"] = dn
+	}
 	// malformed stream: mutations of generated documents and random symbol soup — correspondence only
 	alphabet := []string{"<", ">", "/", "=", "\"", "'", " ", "a", "!", "-", "]", "[", "\n", "\t", "</scr", "</SCRIPT >", "<![CDATA[", "<script>", " ", "é", "<!--", "-->"}
 	mn := c.n(1500, 60000)
